@@ -11,7 +11,7 @@ C05 / C10 line-protocol driver for the time model:
   dump                       print one line: events (times relative to start) `| end=<t> pend=<n>`
 
 Tokens: rationals `p/q` or integers; clocks `sys`, `app`, `t<i>`;
-acts `y d`, `hang`, `log`, `send b`, `spawn r clk`, `tempo i x`, `pause r`, `resume r`, `stop r`,
+acts `y d`, `hang`, `yinf` (= hang), `log`, `send b`, `spawn r clk`, `tempo i x`, `pause r`, `resume r`, `stop r`,
 `wait c`, `sig c`, `seed n`, `draw`.
 -/
 import Sc3Verif.C05.Model
@@ -48,6 +48,7 @@ def parseAct (ws : List String) : Option Act :=
   match ws with
   | ["y", d] => do some (.yield (← parseRat d))
   | ["hang"] => some .hang
+  | ["yinf"] => some .hang        -- `yield float('inf')`: never rescheduled
   | ["log"] => some .log
   | ["send", b] => do some (.send (← b.toNat?))
   | ["spawn", r, c] => do some (.spawn (← r.toNat?) (← parseClk c))
@@ -76,6 +77,7 @@ structure DS where
   tempi : List (Nat × Rat) := []
   start : Rat := 0
   s : S := {}
+  now : Rat := 0
 
 def lookupD {α} (l : List (Nat × α)) (d : α) (i : Nat) : α :=
   match l.find? (·.1 == i) with
@@ -105,7 +107,7 @@ partial def loop (h out : IO.FS.Stream) (d : DS) : IO Unit := do
   | ["start", t, c] =>
     match parseRat t, parseClk c with
     | some t, some c =>
-      loop h out { d with start := t, s := S.init (lookupD d.prog []) (lookupD d.tempi 1) t c }
+      loop h out { d with start := t, now := t, s := S.init (lookupD d.prog []) (lookupD d.tempi 1) t c }
     | _, _ => out.putStrLn "bad-start"; loop h out d
   | ["nrt", n] =>
     match n.toNat? with
@@ -113,11 +115,11 @@ partial def loop (h out : IO.FS.Stream) (d : DS) : IO Unit := do
     | none => out.putStrLn "bad-nrt"; loop h out d
   | ["m", "adv", x] =>
     match parseRat x with
-    | some x => loop h out { d with s := d.s.stepRt (.advance x) }
+    | some x => let r := (RtS.mk d.s d.now).step (.advance x); loop h out { d with s := r.s, now := r.now }
     | none => out.putStrLn "bad-move"; loop h out d
   | ["m", "run", c] =>
     match parseClk c with
-    | some c => loop h out { d with s := d.s.stepRt (.run c) }
+    | some c => let r := (RtS.mk d.s d.now).step (.run c); loop h out { d with s := r.s, now := r.now }
     | none => out.putStrLn "bad-move"; loop h out d
   | ["dump"] =>
     let evs := " ".intercalate (d.s.trace.reverse.map (fmtEv d.start))
